@@ -2147,9 +2147,19 @@ func (e *CoreExtension) filterNumberFormat(value interface{}, args ...interface{
 		return nil, fmt.Errorf("number_format: %d is not a usable number of decimals", decimals)
 	}
 
-	// Format the number
+	// Format the number (an integer from its own digits: a float64 has no room
+	// for all of them beyond 2^53)
 	format := "%." + strconv.Itoa(decimals) + "f"
 	str := fmt.Sprintf(format, num)
+	if neg, mag, ok := integerValue(value); ok {
+		str = strconv.FormatUint(mag, 10)
+		if neg {
+			str = "-" + str
+		}
+		if decimals > 0 {
+			str += "." + strings.Repeat("0", decimals)
+		}
+	}
 
 	// Split into integer and fractional parts
 	parts := strings.Split(str, ".")
@@ -2195,7 +2205,32 @@ func (e *CoreExtension) filterNumberFormat(value interface{}, args ...interface{
 	return intPart, nil
 }
 
+// integerValue reports whether v is of an integer kind and, if so, its sign
+// and magnitude (a float64 cannot hold every integer beyond 2^53)
+func integerValue(v interface{}) (neg bool, mag uint64, ok bool) {
+	rv := reflect.ValueOf(v)
+	switch rv.Kind() {
+	case reflect.Int, reflect.Int8, reflect.Int16, reflect.Int32, reflect.Int64:
+		if i := rv.Int(); i < 0 {
+			return true, uint64(-(i + 1)) + 1, true
+		} else {
+			return false, uint64(i), true
+		}
+	case reflect.Uint, reflect.Uint8, reflect.Uint16, reflect.Uint32, reflect.Uint64, reflect.Uintptr:
+		return false, rv.Uint(), true
+	}
+	return false, 0, false
+}
+
 func (e *CoreExtension) filterAbs(value interface{}, args ...interface{}) (interface{}, error) {
+	// An integer keeps all its digits
+	if _, mag, ok := integerValue(value); ok {
+		if mag <= math.MaxInt64 {
+			return int(mag), nil
+		}
+		return mag, nil
+	}
+
 	num, err := toFloat64(value)
 	if err != nil {
 		return value, nil
@@ -2227,6 +2262,26 @@ func (e *CoreExtension) filterRound(value interface{}, args ...interface{}) (int
 		}
 	}
 
+	// An integer rounded to whole numbers or to decimal places is itself, with
+	// all its digits
+	if neg, mag, ok := integerValue(value); ok && precision >= 0 {
+		if !neg && mag > math.MaxInt64 {
+			return mag, nil
+		}
+		if neg {
+			return -int(mag-1) - 1, nil
+		}
+		return int(mag), nil
+	}
+	// Beyond the digits a float64 has there is nothing to round (and 10^precision
+	// is not a number any more)
+	if precision > 300 {
+		return positiveZero(num), nil
+	}
+	if precision < -300 {
+		return 0, nil
+	}
+
 	// Apply rounding
 	var result float64
 	switch method {
@@ -2241,8 +2296,9 @@ func (e *CoreExtension) filterRound(value interface{}, args ...interface{}) (int
 		result = math.Round(num*shift) / shift
 	}
 
-	// If precision is 0, return an integer
-	if precision == 0 {
+	// If precision is 0, return an integer (where there is one: beyond the
+	// integer range the conversion would give an arbitrary number)
+	if precision == 0 && result > -9.2e18 && result < 9.2e18 {
 		return int(result), nil
 	}
 
